@@ -78,10 +78,13 @@ def run_one(family, rng, idx, tier):
         return out
     if family == "sample":
         try:
-            res, ops, ncells = lm.sample_check(rng, stats)
+            res, ops, ncells = lm.sample_check(rng, {})
         except Skip as e:
             return {"skipped": "skip: %s" % str(e)[:60], "stats": {"evaluations": 0}}
         if res is None:
+            if ncells == -1:
+                return {"skipped": "sample: acceptance below 1/100 in this history (draw-count guard)",
+                        "stats": {"evaluations": 0, "sample_skipped_low_acceptance": 1}}
             return {"skipped": "sample: fewer than two positive weights", "stats": {"evaluations": 0}}
         cells, n, weights = res
         return {"partial": {"cells": [[k, o, p] for k, o, p in cells], "n": n, "ops": ops, "weights": weights},
